@@ -43,48 +43,70 @@ def rule_complete(chk):
     rt = ctx.func("prettyprint", "_render_timestamp")
     for q in ("pretty_format", "compact_format"):
         f = ctx.func("prettyprint", q)
-        cfg = ctx.cfg(f)
-        mparam = f.params[0]
+        fcfg = ctx.cfg(f)
+        fparam = f.params[0]
         problems = []
-        loops = [n for n in cfg.live if n.kind == "for_next"]
-        l1 = [n for n in loops if unparse(n.ast.iter) == "_first_fields"]
-        l2 = [n for n in loops if "%s.items()" % mparam in unparse(n.ast.iter)]
-        if len(l1) != 1 or len(l2) != 1:
-            problems.append("the first-fields loop / the loop over %s.items() was not found exactly once" % mparam)
-        else:
-            it = l2[0].ast.iter
-            if unparse(it) not in ("sorted(%s.items())" % mparam, "%s.items()" % mparam):
-                problems.append("the remaining-fields loop iterates %s, not the whole message" % unparse(it))
-            if not cfg.precedes(l1, l2)[0]:
-                problems.append("the remaining fields are rendered before type/status")
-            kv = l2[0].ast.target.elts[0].id if isinstance(l2[0].ast.target, ast.Tuple) else None
-            region = common.loop_region(cfg, l2[0])
-            tests = [t for t in region if t.kind == "test"]
-            okf = len(tests) == 1 and unparse(tests[0].exprs[0]) == "%s not in _skip_fields" % kv
-            if not okf:
-                problems.append("fields are filtered by %s instead of only `%s not in _skip_fields`" % ([unparse(t.exprs[0]) for t in tests], kv))
-            if any(n.kind in ("break", "continue", "return") for n in region):
-                problems.append("the remaining-fields loop can skip or stop")
-            # something is rendered for every kept field
-            body_true = [s for t in tests for s, l in t.succ if l == "true"]
-            rend = [n for n in region if (isinstance(n.ast, (ast.AugAssign, ast.Assign)) and (kv in {x.id for x in ast.walk(n.ast) if isinstance(x, ast.Name)}))]
-            if tests and (not rend or not cfg.must_pass(body_true, [l2[0]], rend)[0]):
-                problems.append("a kept field is not rendered on some path")
-            # first loop: each present first field rendered
-            r1 = common.loop_region(cfg, l1[0])
-            t1 = [t for t in r1 if t.kind == "test"]
-            fv = l1[0].ast.target.id
-            if not (len(t1) == 1 and unparse(t1[0].exprs[0]) == "%s in %s" % (fv, mparam)):
-                problems.append("first fields are not rendered exactly when present")
+        # the two loops live in the formatter itself or in a helper it hands the message to
+        cands = [(f, fparam)]
+        for s_ in ctx.cg.sites[f]:
+            if s_.call is None:
+                continue
+            for g in s_.repo_targets():
+                if g.module is f.module and g is not f and g is not rt and not g.is_lambda and g.parent is None:
+                    for i, a_ in enumerate(s_.call.args):
+                        if isinstance(a_, ast.Name) and a_.id == fparam and i < len(g.params):
+                            cands.append((g, g.params[i]))
+        found = None
+        for g, mparam in cands:
+            cfg = ctx.cfg(g)
+            loops = [n for n in cfg.live if n.kind == "for_next"]
+            l1 = [n for n in loops if unparse(n.ast.iter) == "_first_fields"]
+            l2 = [n for n in loops if "%s.items()" % mparam in unparse(n.ast.iter)]
+            if len(l1) == 1 and len(l2) == 1:
+                found = (g, mparam, cfg, l1, l2)
+        if found is None:
+            raise AnalysisError("%s: the first-fields loop and the loop over the message's items were not found (in the formatter or a helper)" % q)
+        g, mparam, cfg, l1, l2 = found
+        it = l2[0].ast.iter
+        if unparse(it) not in ("sorted(%s.items())" % mparam, "%s.items()" % mparam):
+            problems.append("the remaining-fields loop iterates %s, not the whole message" % unparse(it))
+        if not cfg.precedes(l1, l2)[0]:
+            problems.append("the remaining fields are rendered before type/status")
+        kv = l2[0].ast.target.elts[0].id if isinstance(l2[0].ast.target, ast.Tuple) else None
+        region = common.loop_region(cfg, l2[0])
+        tests = [t for t in region if t.kind == "test"]
+        okf = len(tests) == 1 and unparse(tests[0].exprs[0]) == "%s not in _skip_fields" % kv
+        if not okf:
+            problems.append("fields are filtered by %s instead of only `%s not in _skip_fields`" % ([unparse(t.exprs[0]) for t in tests], kv))
+        if any(n.kind in ("break", "continue", "return") for n in region):
+            problems.append("the remaining-fields loop can skip or stop")
+
+        def uses(n, name):
+            return n.ast is not None and n.kind in ("stmt",) and name in {x.id for e in n.exprs for x in ast.walk(e) if isinstance(x, ast.Name)} and (
+                isinstance(n.ast, (ast.AugAssign, ast.Assign)) or any(isinstance(x, ast.Yield) for e in n.exprs for x in ast.walk(e)))
+        body_true = [s_ for t in tests for s_, l in t.succ if l == "true"]
+        rend = [n for n in region if uses(n, kv)]
+        if tests and (not rend or not cfg.must_pass(body_true, [l2[0]], rend, skip_labels=("exc",))[0]):
+            problems.append("a kept field is not rendered on some path")
+        # first loop: each present first field rendered, and only presence decides
+        r1 = common.loop_region(cfg, l1[0])
+        t1 = [t for t in r1 if t.kind == "test"]
+        fv = l1[0].ast.target.id
+        rend1 = [n for n in r1 if uses(n, fv)]
+        if not (len(t1) == 1 and unparse(t1[0].exprs[0]) == "%s in %s" % (fv, mparam)):
+            problems.append("type/status fields are rendered under %s, not exactly when present in the message (a present but falsy value is dropped, and the skip set keeps the other loop from showing it)"
+                            % [unparse(t.exprs[0]) for t in t1])
+        elif not rend1 or not cfg.must_pass([s_ for s_, l in t1[0].succ if l == "true"], [l1[0]], rend1, skip_labels=("exc",))[0]:
+            problems.append("a present first field is not rendered")
         # header reads the three
-        rets = common.returns_of(cfg)
+        rets = common.returns_of(fcfg)
         hdr = " ".join(unparse(r.ast.value) for r in rets) + " " + " ".join(unparse(v) for v in assigned_values(f, "level") if v is not None)
         for k, nm in ((UU, "TASK_UUID_FIELD"), (TL, "TASK_LEVEL_FIELD")):
-            if "%s[%s]" % (mparam, nm) not in hdr:
+            if "%s[%s]" % (fparam, nm) not in hdr:
                 problems.append("the header does not show %s" % k)
-        if not any(rt in ctx.targets(f, c) and c.args and isinstance(c.args[0], ast.Name) and c.args[0].id == mparam for r in rets for c in ast.walk(r.ast.value) if isinstance(c, ast.Call)):
+        if not any(rt in ctx.targets(f, c) and c.args and isinstance(c.args[0], ast.Name) and c.args[0].id == fparam for r in rets for c in ast.walk(r.ast.value) if isinstance(c, ast.Call)):
             problems.append("the header does not show the timestamp")
-        chk.req(not problems, "C20.complete", "%s:every-field-rendered" % q, chk.where(f), good="header(3) + first fields + every other item of the message", fail="; ".join(problems), sites=len(cfg.live))
+        chk.req(not problems, "C20.complete", "%s:every-field-rendered" % q, chk.where(f), good="header(3) + first fields + every other item of the message (loops in %s)" % g.fq, fail="; ".join(problems), sites=len(cfg.live))
     okts = any(isinstance(n, ast.Subscript) and ctx.try_fold(rt, n.slice) == (True, TS) for n in ast.walk(rt.node)) and "isoformat" in " ".join(unparse(s) for s in rt.node.body)
     chk.req(okts, "C20.complete", "_render_timestamp:reads-the-timestamp", chk.where(rt), good="renders message[timestamp] via isoformat (microseconds)", fail="_render_timestamp does not render message[timestamp] with isoformat")
 
